@@ -78,6 +78,27 @@ RansacOK(t) ==
          /\ t.ret = (r.best > t.m)
          /\ t.refines = (IF t.ret THEN 1 ELSE 0)                                         \* refined exactly once, only on success
 
+(* ---------------- NLSE Gauss-Newton control loop (src/regression/leastsquares/NLSE.cpp) driven through a scripted subclass *)
+(* (computeGuess_ / computeJacobianAndY_ are the seam): one parameter, four rows of Jacobian 1 and residual r[k] at the k-th  *)
+(* evaluation, so that the SVD step is exactly r[k] and the damped step 0.7 r[k].  The thresholds are chosen by the harness   *)
+(* so that "step smaller than epsilon" means |r| <= E and "final error too large" means |r| > S, away from rounding.          *)
+(* Result: iterations, number of evaluations, verdict, ten times the estimate (10 x0 - 7 * sum of applied residuals).         *)
+RECURSIVE NlseLoop(_, _, _, _, _, _)
+NlseLoop(r, maxIt, E, iter, calls, sum) ==
+  IF iter >= maxIt THEN [iter |-> iter, calls |-> calls, sum |-> sum, broke |-> FALSE]
+  ELSE LET v == r[calls + 1] IN
+       IF Abs(v) <= E THEN [iter |-> iter, calls |-> calls + 1, sum |-> sum, broke |-> TRUE]
+       ELSE NlseLoop(r, maxIt, E, iter + 1, calls + 1, sum + v)
+NlseOK(t) ==
+  LET o == NlseLoop(t.r, t.maxIt, t.E, 0, 0, 0) IN
+  /\ t.guesses = 1 /\ t.iters = o.iter /\ t.est10 = 10 * t.x0 - 7 * o.sum
+  /\ IF ~o.broke
+       THEN ~t.ret /\ t.calls = o.calls /\ t.rmseUnset                                  \* iteration budget exhausted
+       ELSE LET last == t.r[o.calls + 1] IN                                              \* one more evaluation at the solution
+            /\ t.calls = o.calls + 1
+            /\ t.ret = (Abs(last) <= t.S)
+            /\ IF t.ret THEN ~t.rmseUnset /\ t.mse2 = Abs(last) ELSE t.rmseUnset
+
 (* ---------------- durations (nanoseconds as the unit; values kept below 2^31) *)
 FromMicro(us) == us * 1000
 ToMicro(ns) == IF ns >= 0 THEN ns \div 1000 ELSE -((-ns) \div 1000)          \* C++ integer division truncates toward zero
